@@ -479,12 +479,18 @@ func checkTree(c *initCase, st *stats, moov *mp4.MoovBox, m *model, what string)
 			if mdia.Mdhd.Language != packLang(op.Lang) || mdia.Mdhd.GetLanguage() != op.Lang {
 				return bad("mdhd", "language differs from the 3-letter tag supplied", "track %d: %#x (%s), supplied %q", id, mdia.Mdhd.Language, mdia.Mdhd.GetLanguage(), op.Lang)
 			}
-			if mdia.Elng != nil {
-				return bad("elng", "present for a 3-letter tag", "track %d lang %q: elng %q", id, op.Lang, mdia.Elng.Language)
+			// an elng box next to a 3-letter mdhd language is legal (14496-12 8.4.6) as long as it says the same
+			if mdia.Elng != nil && mdia.Elng.Language != op.Lang {
+				return bad("elng", "contradicts the 3-letter tag supplied", "track %d lang %q: elng %q", id, op.Lang, mdia.Elng.Language)
 			}
 		} else {
-			if mdia.Mdhd.Language != packLang("und") {
-				return bad("mdhd", "language not und for a tag that is not 3 letters", "track %d: %#x (%s), supplied %q", id, mdia.Mdhd.Language, mdia.Mdhd.GetLanguage(), op.Lang)
+			// the statement does not say which 3-letter code mdhd carries for a longer tag ("und" today; the best ISO 639-2
+			// match would be as good): any packed three lower-case letters
+			if l := mdia.Mdhd.GetLanguage(); len(l) != 3 || l[0] < 'a' || l[0] > 'z' || l[1] < 'a' || l[1] > 'z' || l[2] < 'a' || l[2] > 'z' {
+				return bad("mdhd", "language is not a packed 3-letter code", "track %d: %#x (%q), supplied %q", id, mdia.Mdhd.Language, l, op.Lang)
+			}
+			if mdia.Mdhd.Language == packLang("und") {
+				harness.Rec.Class("mdhd-und-for-longer-tag")
 			}
 			if mdia.Elng == nil || mdia.Elng.Language != op.Lang {
 				return bad("elng", "missing or differs from the tag supplied", "track %d lang %q: elng %+v", id, op.Lang, mdia.Elng)
@@ -768,12 +774,18 @@ func checkRaw(c *initCase, st *stats, enc []byte, m *model) *harness.Fail {
 		if t.MediaHeader != headerFor(wantH) {
 			return bad("minf", "media header box does not match the handler type", "track %d media type %q handler %q: %s", id, op.MediaType, t.Handler, t.MediaHeader)
 		}
-		wantLang, wantElng, hasElng := packLang("und"), op.Lang, true
+		// the supplied tag is carried by mdhd (3-letter tags; an elng that says the same may accompany it) or by elng
+		// (longer tags; mdhd then holds some packed 3-letter code: the statement does not say which)
+		e, ok := elngs[k]
+		okLang := false
 		if len(op.Lang) == 3 {
-			wantLang, wantElng, hasElng = packLang(op.Lang), "", false
+			okLang = t.Language == packLang(op.Lang) && (!ok || e == op.Lang)
+		} else {
+			l := [3]byte{byte(t.Language>>10&31) + 0x60, byte(t.Language>>5&31) + 0x60, byte(t.Language&31) + 0x60}
+			okLang = ok && e == op.Lang && t.Language>>15 == 0 && l[0] >= 'a' && l[0] <= 'z' && l[1] >= 'a' && l[1] <= 'z' && l[2] >= 'a' && l[2] <= 'z'
 		}
-		if e, ok := elngs[k]; t.Language != wantLang || ok != hasElng || e != wantElng {
-			return bad("mdhd/elng", "language differs from the documented rule", "track %d lang %q: mdhd %#x elng %q (present %v)", id, op.Lang, t.Language, e, ok)
+		if !okLang {
+			return bad("mdhd/elng", "the encoded init does not carry the language tag supplied", "track %d lang %q: mdhd %#x elng %q (present %v)", id, op.Lang, t.Language, e, ok)
 		}
 		ents, err := parseStsd(t.StsdRaw)
 		if err != nil {
